@@ -360,6 +360,9 @@ def failOnErr : S → S
   | .lenFail => .lenFail
   | .forSlots b k => .forSlots b (failOnErr k)
   | .callG a k => .callG a (failOnErr k)
+  | .callM a k => .callM a (failOnErr k)
+  | .fillMapS l o cl b k => .fillMapS l o cl b (failOnErr k)
+  | .pollMapS l o cl k => .pollMapS l o cl (failOnErr k)
   | .endOut k => .endOut (failOnErr k)
   | .opaque n => .opaque n
 
@@ -384,6 +387,9 @@ def resultLeaves : S → Bool
   | .lenFail => true
   | .forSlots _ k => resultLeaves k
   | .callG _ k => resultLeaves k
+  | .callM _ k => resultLeaves k
+  | .fillMapS _ _ _ _ k => resultLeaves k
+  | .pollMapS _ _ _ k => resultLeaves k
   | .endOut k => resultLeaves k
   | .opaque _ => true
 
@@ -544,6 +550,42 @@ theorem exec_failOnErr (c : Ctx) : ∀ (s : S) (env : List V) (st : St), resultL
       · rw [ih _ _ h]; exact (postR_cons _ _).symm
       · rfl
     · rfl
+  | callM a k ih =>
+    intro env st h
+    simp only [failOnErr, exec]
+    split
+    · split
+      · rw [ih _ _ h]; exact (postR_prefix [_, _] _).symm
+      · rfl
+    · rfl
+  | fillMapS l o cl b k _ _ ih =>
+    intro env st h
+    simp only [failOnErr, exec]
+    generalize mapLoop _ _ _ _ _ = L
+    obtain ⟨tr, res, st'⟩ := L
+    cases res with
+    | ret v => simp only []; rw [ih _ _ h]; exact (postR_prefix _ _).symm
+    | panicked => rfl
+    | ub => rfl
+  | pollMapS l o cl k _ ih =>
+    intro env st h
+    simp only [failOnErr, exec]
+    split
+    · generalize exec c cl _ _ = L
+      obtain ⟨tr, res, st'⟩ := L
+      cases res with
+      | ret v =>
+        cases v with
+        | elem y =>
+          simp only []
+          rw [ih _ _ h]
+          have := postR_prefix (tr ++ [Ev.drop y]) (exec c k (env ++ [V.bool true]) st')
+          simp only [List.append_assoc, List.singleton_append] at this
+          exact this.symm
+        | _ => rfl
+      | panicked => rfl
+      | ub => rfl
+    · exact ih _ _ h
   | endOut k ih =>
     intro env st h
     simp only [failOnErr, exec]
@@ -875,5 +917,191 @@ theorem gaFold_body (xs : List Nat) (hw : xs.length < word) (c : Ctx) (hbad : c.
       rw [hsp] at this; exact this
     subst hfull
     body_simp_l [Gen.Body.gaFold, Gen.Body.consumerDrop, positions, hl, foldSpec, hsp, hbad, exec_set, GA.IterOwn.panics]
+
+end GA.Bridge.BodyCollect
+
+namespace GA.Bridge.BodyCollect
+open GA.Body GA.Own GA.Bridge.Body
+
+/-! ### `FunctionalSequence::map` on an owned array: `from_iter(array_iter.map(|src| …))` -/
+
+/-- the calls `f(x_j), f(x_{j+1}), …`: events, whether all returned, the results written so far -/
+def mapSpec (f : Nat → Option Nat) : List Nat → Nat → List Nat → List Ev × Bool × List Nat
+  | [], _, out => ([], true, out)
+  | x :: rest, j, out =>
+    match f j with
+    | some y =>
+      let r := mapSpec f rest (j + 1) (out ++ [y])
+      (.give j x :: .take j y :: r.1, r.2)
+    | none => ([.give j x, .panic j], false, out)
+
+theorem mapSpec_len (f : Nat → Option Nat) : ∀ (xs : List Nat) (j : Nat) (out : List Nat),
+    out.length ≤ (mapSpec f xs j out).2.2.length ∧ (mapSpec f xs j out).2.2.length ≤ out.length + xs.length ∧
+    ((mapSpec f xs j out).2.1 = true → (mapSpec f xs j out).2.2.length = out.length + xs.length) ∧
+    ((mapSpec f xs j out).2.1 = false → (mapSpec f xs j out).2.2.length < out.length + xs.length)
+  | [], j, out => by simp [mapSpec]
+  | x :: rest, j, out => by
+    cases hf : f j with
+    | none => simp [mapSpec, hf]
+    | some y =>
+      obtain ⟨a, b, c, d⟩ := mapSpec_len f rest (j + 1) (out ++ [y])
+      simp only [List.length_append, List.length_cons, List.length_nil] at a b c d
+      simp only [mapSpec, hf, List.length_cons]
+      refine ⟨by omega, by omega, fun h => ?_, fun h => ?_⟩
+      · have := c h; omega
+      · have := d h; omega
+
+/-- the ownership model's fill loop over `mapSrc` (an `ArrayConsumer` side), in closed form -/
+theorem own_mapLoop_eq (f : Nat → Option Nat) (xs : List Nat) :
+    ∀ (rem j : Nat) (out : List Nat), j + rem ≤ xs.length →
+      Own.fillLoop true true (mapSrc (.consumer Gen.Lib.mapPosNew Gen.Lib.mapAdvBeforeCall) f) rem ⟨xs, j, j⟩ out =
+        (if (mapSpec f ((xs.drop j).take rem) j out).2.1 then
+           ((mapSpec f ((xs.drop j).take rem) j out).1,
+             FillRes.full (mapSpec f ((xs.drop j).take rem) j out).2.2 ⟨xs, j + rem, j + rem⟩)
+         else
+           ((mapSpec f ((xs.drop j).take rem) j out).1 ++ (mapSpec f ((xs.drop j).take rem) j out).2.2.map .drop ++
+              (xs.drop (j + ((mapSpec f ((xs.drop j).take rem) j out).2.2.length - out.length) + 1)).map .drop,
+             FillRes.panicked)) := by
+  intro rem
+  induction rem with
+  | zero => intro j out _; simp [Own.fillLoop, mapSpec]
+  | succ rem ih =>
+    intro j out h
+    have hj : j < xs.length := by omega
+    have hx : xs[j]? = some xs[j] := List.getElem?_eq_getElem hj
+    rw [List.drop_eq_getElem_cons hj, List.take_succ_cons]
+    cases hf : f j with
+    | none =>
+      have hstep : (mapSrc (.consumer Gen.Lib.mapPosNew Gen.Lib.mapAdvBeforeCall) f).step ⟨xs, j, j⟩
+          = .panic [.give j xs[j], .panic j] ⟨xs, j + 1, j + 1⟩ := by
+        simp [mapSrc, hx, hf, Side.after, ga_bridge, Bridge.Lib.mapPosNew_eq, arg, Side.owns]
+      simp only [Own.fillLoop, hstep, mapSpec, hf]
+      simp [builderDrop, mapSrc, Side.dropEv, Consumer.dropEv]
+    | some y =>
+      have hstep : (mapSrc (.consumer Gen.Lib.mapPosNew Gen.Lib.mapAdvBeforeCall) f).step ⟨xs, j, j⟩
+          = .yield [.give j xs[j], .take j y] y ⟨xs, j + 1, j + 1⟩ := by
+        simp [mapSrc, hx, hf, Side.after, ga_bridge, Bridge.Lib.mapPosNew_eq, arg, Side.owns]
+      have := ih (j + 1) (out ++ [y]) (by omega)
+      have e : j + 1 + rem = j + (rem + 1) := by omega
+      obtain ⟨l1, _, _, _⟩ := mapSpec_len f ((xs.drop (j + 1)).take rem) (j + 1) (out ++ [y])
+      simp only [List.length_append, List.length_cons, List.length_nil] at l1
+      have e2 : j + 1 + ((mapSpec f ((xs.drop (j + 1)).take rem) (j + 1) (out ++ [y])).2.2.length - (out.length + 1)) + 1
+          = j + ((mapSpec f ((xs.drop (j + 1)).take rem) (j + 1) (out ++ [y])).2.2.length - out.length) + 1 := by omega
+      simp only [Own.fillLoop, hstep, mapSpec, hf, this, e, List.length_append, List.length_cons, List.length_nil, e2]
+      split <;> simp
+
+/-- machine state while `map` runs: `j` source elements consumed (= results written, calls made) -/
+def mst (xs outL : List Nat) (rem : Nat) (extra : Nat) (fg : Bool) : St :=
+  ⟨⟨xs, 0, 0, outL.length + extra, []⟩, ⟨outL ++ List.replicate rem 0, 0, 0, outL.length, List.range' outL.length rem⟩,
+    true, outL.length + extra, fg, outL.length + extra, false⟩
+
+theorem exec_fillMapS (c : Ctx) (l0 : Nat) (src : Obj) (clo body k : S) (env : List V) (st : St) :
+    exec c (.fillMapS l0 src clo body k) env st =
+      match mapLoop src (fun q s => exec c clo (env.take l0 ++ [q]) s) (fun d v s => exec c body (env ++ [d, v]) s)
+          (positions .out 0 st.out.slots.length) st with
+      | (tr, .ret _, st') =>
+        let r := exec c k env st'
+        (tr ++ r.1, r.2)
+      | r => r := by
+  first | rfl | (simp only [exec]; rfl)
+
+def cloOf : S → S
+  | .set _ _ _ k => cloOf k
+  | .ite _ _ e => cloOf e
+  | .newBuilder k => cloOf k
+  | .fillMapS _ _ cl _ _ => cl
+  | _ => .opaque 0
+
+theorem map_loop_body (c : Ctx) (xs : List Nat) (fg : Bool) :
+    ∀ (rem : Nat) (outL : List Nat), outL.length + rem ≤ xs.length → xs.length < word →
+      mapLoop .self (fun q s => exec c (cloOf Gen.Body.gaMap.body) (([] : List V).take 0 ++ [q]) s)
+          (fun d v s => exec c (loopBodyOf Gen.Body.gaMap.body) ([] ++ [d, v]) s)
+          ((List.range' outL.length rem).map (V.slot .out)) (mst xs outL rem 0 fg)
+        = ((mapSpec c.cl ((xs.drop outL.length).take rem) outL.length outL).1,
+           (if (mapSpec c.cl ((xs.drop outL.length).take rem) outL.length outL).2.1 then R.ret .unit else R.panicked),
+           mst xs (mapSpec c.cl ((xs.drop outL.length).take rem) outL.length outL).2.2
+             (outL.length + rem - (mapSpec c.cl ((xs.drop outL.length).take rem) outL.length outL).2.2.length)
+             (if (mapSpec c.cl ((xs.drop outL.length).take rem) outL.length outL).2.1 then 0 else 1) fg) := by
+  intro rem
+  induction rem with
+  | zero => intro outL _ _; simp [mapLoop, mapSpec, mst]
+  | succ rem ih =>
+    intro outL h hw
+    have hj : outL.length < xs.length := by omega
+    have hw1 : outL.length + 1 < word := by omega
+    have hx : xs[outL.length]? = some xs[outL.length] := List.getElem?_eq_getElem hj
+    rw [List.range'_succ, List.map_cons, List.drop_eq_getElem_cons hj, List.take_succ_cons]
+    cases hf : c.cl outL.length with
+    | none =>
+      simp [mapLoop, mst, cloOf, loopBodyOf, Gen.Body.gaMap, exec, eval, St.obj, St.putObj, O.get, O.put, natOf, hj, hw1,
+        hf, mapSpec, hx]
+    | some y =>
+      have := ih (outL ++ [y]) (by simp; omega) hw
+      simp only [List.length_append, List.length_cons, List.length_nil, Nat.zero_add, mst, Nat.add_zero] at this
+      simp only [mapLoop, mst, mapSpec, hf, Nat.add_zero]
+      simp [cloOf, loopBodyOf, Gen.Body.gaMap, exec, eval, St.obj, St.putObj, O.get, O.put, natOf, hj, hw1, hf, hx,
+        repl_set0, erase_fresh] at this ⊢
+      rw [this]
+      simp
+      omega
+
+theorem dropEvs_init (sl : List Nat) (a b p lo hi : Nat) :
+    dropEvs ⟨sl, a, b, p, []⟩ lo hi = ((sl.drop lo).take (hi - lo)).map .drop := by
+  simp [dropEvs, idsOf]
+
+theorem exec_pollMapS (c : Ctx) (l0 : Nat) (src : Obj) (clo k : S) (env : List V) (st : St) :
+    exec c (.pollMapS l0 src clo k) env st =
+      if st.polls < (st.obj src).slots.length then
+        match exec c clo (env.take l0 ++ [.slot src st.polls]) { st with polls := st.polls + 1 } with
+        | (tr, .ret (.elem y), st') =>
+          (tr ++ .drop y :: (exec c k (env ++ [.bool true]) st').1, (exec c k (env ++ [.bool true]) st').2)
+        | (tr, .ret _, st') => (tr, .ub, st')
+        | r => r
+      else exec c k (env ++ [.bool false]) st := by
+  first | rfl | (simp only [exec]; rfl)
+
+/-- **`FunctionalSequence::map` on an owned array, whole body** — `ArrayConsumer::new`,
+    `iter_position`, `FromIterator::from_iter`, `try_from_iter`, `IntrusiveArrayBuilder::{new, extend,
+    is_full, finish}` all inlined from their current source, the `Map` adaptor's closure included:
+    for every array and every mapping function (returning or panicking at any call) the
+    interpretation produces exactly the events and the result of the ownership model's `mapOp`. -/
+theorem gaMap_body (xs : List Nat) (hw : xs.length < word) (c : Ctx) (hn : c.n = xs.length) (hb : c.bad = none) (p0 : Nat) :
+    let r := runFn2 c Gen.Body.consumerDrop.body Gen.Body.intrusiveDrop.body Gen.Body.gaMap []
+      ⟨⟨xs, 0, 0, p0, []⟩, ⟨[], 0, 0, 0, []⟩, false, 0, false, 0, false⟩
+    (r.1, resOf r.2.1) = ((GA.Ops.mapOp .owned c.cl xs).1, some (GA.Ops.mapOp .owned c.cl xs).2) := by
+  have hl := map_loop_body c xs false xs.length [] (by simp) hw
+  simp only [cloOf, loopBodyOf, Gen.Body.gaMap, List.length_nil, Nat.zero_add, mst, List.nil_append, List.drop_zero,
+    List.take_length, List.take_nil] at hl
+  have hlen := mapSpec_len c.cl xs 0 []
+  have hm := own_mapLoop_eq c.cl xs xs.length 0 [] (by omega)
+  simp only [List.drop_zero, List.take_length, Nat.zero_add, List.length_nil, Nat.sub_zero] at hm
+  have hrej : hintReject canonFrags (xs.length, some xs.length) xs.length = false := by simp [hintReject, canonFrags]
+  simp only [GA.Ops.mapOp, libFrags_eq, Own.fromIter, Own.tryFromIter, hrej, Bool.false_eq_true, if_false, Consumer.ofList]
+  rw [show canonFrags.writeBeforeCount = true from rfl, show canonFrags.destFirst = true from rfl, hm]
+  generalize hq : mapSpec c.cl xs 0 [] = q at hl hlen
+  obtain ⟨tr, ok, out⟩ := q
+  simp only [List.length_nil, Nat.zero_add] at hlen
+  obtain ⟨_, hle, hfull, hpart⟩ := hlen
+  simp only at hl hle hfull hpart
+  have hd := dropEvs_written out (xs.length - out.length)
+  cases ok
+  · have hlt : out.length < xs.length := hpart rfl
+    have hle' : out.length ≤ xs.length - out.length + out.length := by omega
+    have hle2 : out.length + 1 ≤ xs.length := by omega
+    simp [runFn2, runDropOn, exec_fillMapS, exec_pollMapS, exec_ite, exec_newBuilder, exec_forgetO_out, exec_lenFail,
+      exec_endOut, exec_done, exec_drop, exec_set, eval, St.obj, St.putObj, O.get, O.put, natOf, boolOf, resolve,
+      GA.Body.panics, resOf, positions, List.range_eq_range', Gen.Body.gaMap, Gen.Body.intrusiveDrop,
+      Gen.Body.consumerDrop, hn, hl, hb, hd, hle', hle2, dropEvs_init, idsOf]
+    apply List.take_of_length_le
+    simp
+  · have hlen' : out.length = xs.length := hfull rfl
+    have e0 : xs.length - out.length = 0 := by omega
+    have hstep : (mapSrc (Side.consumer Gen.Lib.mapPosNew Gen.Lib.mapAdvBeforeCall) c.cl).step ⟨xs, xs.length, xs.length⟩
+        = .done [] ⟨xs, xs.length, xs.length⟩ := by simp [mapSrc]
+    simp [runFn2, runDropOn, exec_fillMapS, exec_pollMapS, exec_ite, exec_newBuilder, exec_forgetO_out, exec_lenFail,
+      exec_endOut, exec_done, exec_drop, exec_set, eval, St.obj, St.putObj, O.get, O.put, natOf, boolOf, resolve,
+      GA.Body.panics, resOf, positions, List.range_eq_range', Gen.Body.gaMap, Gen.Body.intrusiveDrop,
+      Gen.Body.consumerDrop, hn, hl, hb, hlen', e0, dropEvs, idsOf, canonFrags, hstep, mapSrc, Side.dropEv,
+      Consumer.dropEv]
 
 end GA.Bridge.BodyCollect
